@@ -423,18 +423,79 @@ fn removed_spellings(ctx: &mut Ctx) {
     }
 }
 
+/// Three layers, the last two editing the same unit: the last one has the last word.
+fn later_layer_wins(ctx: &mut Ctx) {
+    let build = |layers: &[&str]| -> Option<Converter> {
+        let mut b = Converter::builder().with_units_file(cooklang::convert::UnitsFile::bundled()).ok()?;
+        for l in layers {
+            b = b.with_units_file(toml::from_str::<cooklang::convert::UnitsFile>(l).ok()?).ok()?;
+        }
+        b.finish().ok()
+    };
+    // (layers, quantity, unit, target, expected amount)
+    let cases: [(&[&str], f64, &str, &str, f64); 5] = [
+        (&["[extend.units]\ncup = { ratio = 0.24 }\n", "[extend.units]\ncup = { ratio = 0.25 }\n"], 2.0, "cup", "ml", 500.0),
+        (&["[extend.units]\ncup = { ratio = 0.25 }\n", "[extend.units]\ncup = { ratio = 0.24 }\n"], 2.0, "cup", "ml", 480.0),
+        (&["[extend.units]\ncup = { ratio = 0.24 }\n", "[extend.units]\ntsp = { ratio = 0.005 }\n", "[extend.units]\ncup = { ratio = 0.25 }\n"], 1.0, "l", "cup", 4.0),
+        (&["[extend.units]\nF = { difference = 460 }\n", "[extend.units]\nF = { difference = 459.67 }\n"], 32.0, "F", "C", 0.0),
+        (&["[extend.units]\nlb = { ratio = 500 }\n", "[extend.units]\noz = { ratio = 30 }\n", "[extend.units]\nlb = { ratio = 453.59237 }\n"], 2.0, "lb", "g", 907.18474),
+    ];
+    for (layers, v, from, to, want) in cases {
+        let case = Case::new("layer_order", format!("{layers:?}: {v} {from} -> {to}"), 0, "bundled+layers");
+        ctx.evals += 1;
+        let Some(conv) = build(layers) else {
+            ctx.count("layer_order_converter_not_built(observation; C16 judges that)");
+            continue;
+        };
+        let mut q: ScaledQuantity = Quantity::new(Value::Number(Number::Regular(v)), Some(from.to_string()));
+        match crate::core::guarded(|| q.convert(to, &conv)) {
+            Err(p) => ctx.panic_violation(&case, "convert", p),
+            Ok(r) => {
+                let got = amount(q.value()).map(|a| a.0);
+                if r.is_err() || !matches!(got, Some(g) if close(g, want, 1e-6, 1e-6)) {
+                    ctx.violation(&case, "layers", "later_layer_does_not_have_the_last_word", format!("{v} {from} -> {to}: {r:?}, {q} (expected {want})"));
+                } else {
+                    ctx.nontrivial(&case);
+                    ctx.count("layer_order_ok");
+                }
+            }
+        }
+    }
+}
+
 /// whole recipes through ScaledRecipe::convert
+struct Sp1 {
+    text: String,
+}
+
 fn recipes(ctx: &mut Ctx, conv: &Converter) {
     use crate::gen::recipe::{self as g, feat, GenOpts};
     let parser = cooklang::CooklangParser::new(cooklang::Extensions::all(), conv.clone());
     let n = ctx.budget(3_000, 300_000);
     let opts = GenOpts::extended();
-    for _ in 0..n {
+    // without ADVANCED_UNITS a timer may carry any unit: it is a quantity of the recipe like the others
+    let no_adv = cooklang::Extensions::all() ^ cooklang::Extensions::ADVANCED_UNITS;
+    let parser_no_adv = cooklang::CooklangParser::new(no_adv, conv.clone());
+    let handwritten = [
+        "Pour @stock{250%ml} and reduce ~{250%ml}, then rest ~{90%min}.\n",
+        "Fill ~{1%cup} of @water{2%cups} and keep ~x{3%lb} near 20 °C or 70 F.\n",
+        "Wait ~{2-3%l} then ~{1/2%oz} and add @a{1%kg} @&a{2%lb}.\n",
+    ];
+    for it in 0..n + handwritten.len() as u64 {
         let seed = ctx.rng.next();
-        let mut r = Rng::new(seed);
-        let spec = g::gen_spec(&mut r, &opts);
-        let sp = g::spell(&spec, seed, feat::ALL, 1);
-        let case = Case::new("recipe", sp.text.as_str(), cooklang::Extensions::all().bits(), "bundled");
+        let (text, parser, ext) = if (it as usize) < handwritten.len() {
+            if ctx.shard != 0 {
+                continue;
+            }
+            ctx.count("recipes_with_non_time_timers");
+            (handwritten[it as usize].to_string(), &parser_no_adv, no_adv.bits())
+        } else {
+            let mut r = Rng::new(seed);
+            let spec = g::gen_spec(&mut r, &opts);
+            (g::spell(&spec, seed, feat::ALL, 1).text, &parser, cooklang::Extensions::all().bits())
+        };
+        let sp = Sp1 { text };
+        let case = Case::new("recipe", sp.text.as_str(), ext, "bundled");
         ctx.evals += 1;
         let Ok(Some(recipe)) = crate::core::guarded(|| parser.parse(&sp.text).into_output()) else { continue };
         for sys in [System::Metric, System::Imperial] {
@@ -609,6 +670,7 @@ pub fn run(ctx: &mut Ctx) {
         table_agreement(ctx, &conv);
         failures(ctx, &conv);
         removed_spellings(ctx);
+        later_layer_wins(ctx);
     }
     // all ordered pairs of units, by every key of each
     let all: Vec<Arc<Unit>> = conv.all_units().map(|u| conv.find_unit(u.symbol()).unwrap()).collect();
